@@ -16,6 +16,7 @@ fn engines() -> Vec<(&'static [&'static str], Reg)> {
         (unitsim::PROPERTIES, unitsim::registry as Reg),
         (scn_user::PROPERTIES, scn_user::registry as Reg),
         (scn_oracle::PROPERTIES, scn_oracle::registry as Reg),
+        (marketsim::PROPERTIES, marketsim::registry as Reg),
     ]
 }
 
